@@ -129,7 +129,8 @@ def h_roundtrip(S, B):
     r_res = attempt(lambda: ser.loads(ser.dumps(v)))
     S.cover("ser:" + sname)
     ext_leaf = lk in ("bigint", "complex", "date", "datetime") or (lk == "int" and not S.must(And(leaf >= -(2 ** 63), leaf < 2 ** 64)))
-    S.known("C01-msgpack-arguments-are-decoded-without-the-ext-hook", And(sname == "msgpack", ext_leaf))
+    S.known("C01-msgpack-arguments-are-decoded-without-the-ext-hook", And(sname == "msgpack", ext_leaf),
+            checks=["same-mapping-for-arguments-and-results", "arguments-and-results-serialise-alike", "positional-and-keyword-arguments-map-alike"])
     if r_args[0] == "value":
         obj, method, vargs, kwargs = r_args[1]
         S.check("call-header-unchanged", obj == "obj" and method == "method" and len(vargs) == 1 and sorted(kwargs.keys()) == ["kw"])
